@@ -80,13 +80,14 @@ ShadowCase(x) ==
 (* ------------------------------- RegDep (C04) ------------------------------ *)
 RegDepIns == { Lw("t0", "a0", 0), Li("t0", 5), Addi("t0", "t0", 1), AddI("t1", "t0", "t0"), I("mv", "t0", "t1", "zero", 0, 0),
                Addi("t1", "t0", 2), I("mul", "t1", "t1", "t0", 0, 0), Li("t1", 3), I("sub", "t0", "t1", "t0", 0, 0),
-               Lw("t1", "a0", 4), I("mv", "t2", "t0", "zero", 0, 0), AddI("t2", "t2", "t1") }
+               Lw("t1", "a0", 4), I("mv", "t2", "t0", "zero", 0, 0), AddI("t2", "t2", "t1"),
+               AddI("t2", "t1", "t0"), I("mul", "t3", "t0", "t0", 0, 0) }
 RegDepCases == { <<s, img>> : s \in UpTo(RegDepIns, IF Size = "large" THEN 4 ELSE 3), img \in {"ramp"} }
 RegDepCase(x) ==
   LET p == x[1] \o <<Nop>>
       r0 == Regs0(64, 128, -5, 7, 1, 0)
       fin == Final(p, r0, x[2], 256, 64)
-  IN CaseRec("RegDep", p, r0, x[2], 256, fin, {"t0", "t1", "t2"}, {}, Tags(p, fin), [n |-> Len(x[1])])
+  IN CaseRec("RegDep", p, r0, x[2], 256, fin, {"t0", "t1", "t2", "t3"}, {}, Tags(p, fin), [n |-> Len(x[1])])
 
 (* -------------------------------- Tail (C09) ------------------------------- *)
 (* prologue warms line 64 (so that later accesses to it hit) and leaves line 128 cold *)
